@@ -100,7 +100,9 @@ def roots(tier, seed):
                                                                callback=cb)
                                         case["tag"].update(cons=cons, form=form, term=term, fix=fname)
                                         dev = tier == "thorough" and group in ("nl", "both") and bform == "Bounds" \
-                                            and term in ("natural", "maxfev") and obj == "quad"
+                                            and (term == "maxfev" or (term == "natural" and n <= 2)) and obj == "quad"
+                                        if dev and term == "natural":
+                                            opts["maxfev"] = 40 * n
                                         case["explore"] = 1 if dev else 0
                                         out.append(case)
         # NaN / inf regions in the *constraint* functions: the reported maxcv must be the raw (NaN) violation
